@@ -85,6 +85,16 @@ def gen_history(rng, opts=None):
         k = s * rng.randrange(c.ncells)
         return ["assign %d %d %s" % (r, v, E([], k))], E([(1, v)], 0)
 
+    if rng.random() < 0.55:
+        # start from initialised arrays (otherwise most loads return top)
+        for a in range(c.na):
+            if rng.random() < 0.8:
+                s = c.esz[a]
+                lo, hi = (0, s * (c.ncells + rng.randrange(3))) if c.one[a] is None else (c.one[a], c.one[a])
+                ops.append("ainit 0 %d %s %s %s %s" % (a, E([], s), E([], lo), E([], hi), E([], rng.choice(VALS))))
+        for r in range(1, c.nregs):
+            if rng.random() < 0.7:
+                ops.append("copy %d 0" % r)
     for _ in range(nops):
         r = rng.randrange(c.nregs)
         a = rng.randrange(c.na)
@@ -193,6 +203,10 @@ CORPUS = [
     "ahist 1 3 2 w=32 esz=4,4 one=-,- ; astore 0 0 E 0 4 E 0 0 E 0 5 0 ; astore 0 1 E 0 4 E 0 4 E 0 1 0 ; acopy 0 0 1 ; aload 0 1 0 E 0 4 E 0 0",
     # symbolic load over a part of the array that the state does not track (fixes/arrays-5)
     "ahist 3 3 1 w=32 esz=4 one=- ; astore 0 0 E 0 4 E 0 8 E 0 2 0 ; join 1 0 1 ; astore 1 0 E 0 4 E 0 12 E 0 1 0 ; aload 1 1 0 E 0 4 E 1 1 0 0",
+    # a smashing store over an array that has a defined cell the state does not track: the
+    # load from the smashed array misses it (known finding of array_adaptive, smashable settings;
+    # Coq: C14_adaptive_smash_untracked_refuted)
+    "ahist 2 3 1 w=32 esz=4 one=- ; astore 0 0 E 0 4 E 0 8 E 0 2 0 ; join 1 0 1 ; astore 1 0 E 0 4 E 0 0 E 0 5 0 ; assume 1 2 C le E 1 -1 0 0 C le E 1 1 0 -4 ; astore 1 0 E 0 4 E 1 1 0 0 E 0 7 0 ; aload 1 1 0 E 0 4 E 0 8",
     # array operations on a bottom value (fixes/arrays-3)
     "ahist 2 3 1 w=32 esz=4 one=- ; bot 0 ; astore 0 0 E 0 4 E 0 0 E 0 5 0 ; aload 0 1 0 E 0 4 E 0 0 ; arange 0 0 E 0 4 E 0 0 E 0 8 E 0 1 ; join 1 0 1",
     # symbolic store that cannot smash (array does not start at 0), store again, symbolic store again
@@ -209,7 +223,7 @@ CORPUS = [
     # widening of array contents in a loop shape
     "ahist 3 3 1 w=32 esz=4 one=- ; ainit 0 0 E 0 4 E 0 0 E 0 36 E 0 0 ; copy 1 0 ; aload 1 1 0 E 0 4 E 0 4 ; arith 1 add 1 1 k 1 ; astore 1 0 E 0 4 E 0 4 E 1 1 1 0 0 ; widen 0 0 1 ; copy 1 0 ; aload 1 1 0 E 0 4 E 0 4 ; arith 1 add 1 1 k 1 ; astore 1 0 E 0 4 E 0 4 E 1 1 1 0 0 ; widen 0 0 1 ; aload 0 2 0 E 0 4 E 0 8",
     # forget / project / expand / rename of arrays
-    "ahist 1 3 2 w=32 esz=4,4 one=-,- ; ainit 0 0 E 0 4 E 0 0 E 0 12 E 0 5 ; expand 0 3 4 ; aload 0 1 1 E 0 4 E 0 4 ; forget 0 1 3 ; aload 0 2 0 E 0 4 E 0 4 ; rename 0 1 4 3 ; aload 0 0 0 E 0 4 E 0 0 ; project 0 2 0 1 ; aload 0 2 0 E 0 4 E 0 0",
+    "ahist 1 3 2 w=32 esz=4,4 one=-,- ; ainit 0 0 E 0 4 E 0 0 E 0 12 E 0 5 ; expand 0 3 4 ; aload 0 1 1 E 0 4 E 0 4 ; forget 0 1 3 ; rename 0 1 4 3 ; aload 0 0 0 E 0 4 E 0 0 ; project 0 2 0 1 ; aload 0 2 0 E 0 4 E 0 0",
 ]
 
 
@@ -652,3 +666,18 @@ def gen_cells(seed, tier, n=None):
 def cells_nontrivial(line, ans):
     """rule: some query of the line returned a non-empty cell set or a decision changed the shape"""
     return bool(re.search(r"\{\d", ans))
+
+
+def full_init(line):
+    """the same history with every array initialised in every register first (cells
+    0 .. 15*sz, or the single cell of a one-cell array) and without `top`: every defined
+    cell is then tracked by the adaptive domain unless it loses it itself"""
+    ops = line.split(" ; ")
+    nregs, ns, na, esz, one = header(line)
+    pre = []
+    for r in range(nregs):
+        for a in range(na):
+            lo, hi = (0, 15 * esz[a]) if one[a] is None else (one[a], one[a])
+            pre.append("ainit %d %d %s %s %s %s" % (r, a, E([], esz[a]), E([], lo), E([], hi), E([], 0)))
+    body = [o for o in ops[1:] if not o.startswith("top ")]
+    return " ; ".join([ops[0]] + pre + body)
